@@ -560,7 +560,7 @@ def c18b(F, R):
     """every SeverityLevel -> word table of the printers maps each level to the same word"""
     tables = []
     for p, f in sorted(F.fns.items()):
-        if "hir" not in f or not p.startswith(("rva::", "riscv_analysis_cli::", "riscv_analysis_lsp::")):
+        if "hir" not in f or f["crate"] not in ("rva", "riscv_analysis_cli", "riscv_analysis_lsp"):
             continue
         for m in find_matches(f["hir"]["value"]):
             vs = [v for a in m["arms"] for k, v in pat_variants(a["pat"]) if k == "path"]
